@@ -103,6 +103,11 @@ def plan(tier):
                       space='the programs of unit `programs` that await a future%s; the harness resolves the promises still pending at the end from ordinary code WHILE AN EXCEPTION IS PROPAGATING '
                             '(a scope guard resolving during stack unwinding): still normal mode, the waiter must run at once and nothing may be left in the queue' % (' (every third)' if quick else ''),
                       bounds='as unit programs'))
+    extra.append(dict(engine='e1', tu='C05raw.cpp', entry='h_raw_mode', unwind=20, name='raw_mode', vectors=[[h, m, n] for h in (0, 1) for m in (0, 1) for n in (0, 1)],
+                      concrete=[([0, 0, 0], [7]), ([1, 1, 1], [8]), ([0, 1, 1], [9])],
+                      space='a producer coroutine parked on a foreign awaitable and resumed by a plain handle.resume() (no coroutine queue active) or through coro_queue; it resolves the promises 1..2 consumer '
+                            'coroutines wait for and co_awaits / discards the suspend points, then parks on a gate only the harness opens; full product',
+                      data='delivered value (16 bit): symbolic', bounds='<= 3 coroutines', outside='see unit programs'))
     return extra + [
         dict(common, name='programs', vectors=[vec(p) for p in progs], concrete=conc,
              space=space + '. Steps: %s; a script ends with the coroutine finishing; promises still pending at the end are resolved by the harness (each a new outermost activation)' % (OPS,),
